@@ -585,6 +585,10 @@ pub fn c14(ctx: &Ctx) -> Report {
     for k in 0..(if ctx.thorough { 120 } else { 12 }) {
         after_error_session(ctx, &mut rng, &mut rep, k, &format!("c14e/{}/{k}", ctx.seed));
     }
+    // a refused block inside a multiple-block write, then more calls
+    for k in 0..(if PENDING_FIX_MULTI_WRITE_STOP { 0 } else if ctx.thorough { 60 } else { 6 }) {
+        after_write_error_session(ctx, &mut rng, &mut rep, k, &format!("c14w/{}/{k}", ctx.seed));
+    }
     rep.rule = "the same sessions as C12 (all kinds, CRC modes, timings, incl. mark-uninit + re-identification), judged by the card specification's violation list (frame format, CRC-7, end bit, command while busy, ACMD without CMD55, data command before identification, command during a multiple-block read) and by an independent frame parser in the harness (CRC-7 from the polynomial, CMD55 prefix, CMD18 ended by CMD12), plus sessions in which a transfer fails (corrupted data block, rejected write) and further calls follow; distinct = sessions".into();
     rep.distinct_nontrivial = rep.cases;
     rep
@@ -655,6 +659,69 @@ fn after_error_session(ctx: &Ctx, rng: &mut Rng, rep: &mut Report, k: usize, tag
         if viol != "-" {
             let sig = if viol.contains("during multiple-block read") { "multi-read-not-stopped-after-error".to_string() } else { format!("protocol-after-error:{}", viol.split(' ').take(3).collect::<Vec<_>>().join("-")) };
             rep.violation("impl-vs-spec", &sig, &format!("a {} failed with `{}`; the next call `{}` then violates the protocol: {}", call.show(), trunc(&res, 60), c.show(), trunc(&viol, 200)), J::obj(vec![("case", J::s(tag.to_string())), ("kind", J::s(cfg.kind.token())), ("timing", J::s(format!("{:?}", cfg.timing)))]));
+            break;
+        }
+    }
+}
+
+/// (switched on together with the repair of the defect it exhibits)
+const PENDING_FIX_MULTI_WRITE_STOP: bool = true;
+
+/// A multiple-block write in which the card refuses one of the blocks (data response "write error" 0x0D or
+/// "CRC error" 0x0B instead of "accepted"): the call must fail, and the calls that follow must still form a
+/// legal conversation - in particular the card must not be left waiting for further data blocks (the write
+/// has to be ended by the stop token although it failed).
+fn after_write_error_session(ctx: &Ctx, rng: &mut Rng, rep: &mut Report, k: usize, tag: &str) {
+    let cfg = random_cfg(rng, k);
+    let cfg = CaseCfg { timing: (cfg.timing.0, cfg.timing.1 % 8, cfg.timing.2 % 8, cfg.timing.3), ..cfg };
+    let mut rig = Rig::new(&ctx.model_path, cfg.kind, cfg.csd.clone(), cfg.timing, cfg.use_crc, cfg.retries, rng.next());
+    rep.cases += 1;
+    let (r0, l0, d0) = rig.call(&Call::CardType);
+    correspond(rep, &mut rig, &Call::CardType, &r0, &l0, d0, tag);
+    let mut in_multi = false;
+    let mut last_cmd = None;
+    let blocks = vec![block_pattern(rng), block_pattern(rng), block_pattern(rng)];
+    let call = Call::Write(2, blocks.clone());
+    // a clean run first: where is each block's data-response byte in the MISO stream of this call?
+    let (rc, lc, dc) = rig.call(&call);
+    correspond(rep, &mut rig, &call, &rc, &lc, dc, tag);
+    let mut resp_pos: Vec<usize> = Vec::new();
+    let mut pos = 0usize;
+    let mut prev_len = 0usize;
+    for t in &lc {
+        if t.out.len() == 2 && prev_len == 512 {
+            resp_pos.push(pos + 2);
+        }
+        prev_len = t.out.len();
+        pos += t.out.len();
+    }
+    if resp_pos.len() != blocks.len() || !rc.starts_with("ok") {
+        rep.notes.push(format!("after-write-error: clean 3-block write gave `{}` with {} data responses located", trunc(&rc, 40), resp_pos.len()));
+        return;
+    }
+    let base = rig.bus.borrow().miso_bytes;
+    let which = k % blocks.len();
+    let status = if (k / 3) % 2 == 0 { 0x0Du8 } else { 0x0B };
+    rig.bus.borrow_mut().faults.replace = vec![(base + resp_pos[which], status)];
+    rep.count(&format!("after-write-error:block-{}-of-3:{:#04x}", which + 1, status));
+    let (res, log, delays) = rig.call(&call);
+    rig.bus.borrow_mut().faults = Faults::default();
+    rep.ops += 1;
+    check_frames(rep, &log, tag, &call, &mut in_multi, &mut last_cmd);
+    correspond(rep, &mut rig, &call, &res, &log, delays, tag);
+    rep.oracle_checks += 1;
+    if !res.starts_with("err") {
+        rep.violation("impl-vs-spec", "rejected-write-accepted", &format!("data response {status:#04x} (not 'accepted') for block {} of a 3-block write and the write returned `{res}`", which + 1), J::obj(vec![("case", J::s(tag.to_string())), ("status", J::i(status as i128)), ("block", J::i(which as i128 + 1))]));
+    }
+    for c in [Call::Read(1, 2), Call::Write(9, vec![block_pattern(rng)]), Call::Read(2, 3)] {
+        let (r2, log, delays) = rig.call(&c);
+        rep.ops += 1;
+        check_frames(rep, &log, tag, &c, &mut in_multi, &mut last_cmd);
+        correspond(rep, &mut rig, &c, &r2, &log, delays, tag);
+        let viol = rig.violations();
+        rep.oracle_checks += 1;
+        if viol != "-" {
+            rep.violation("impl-vs-spec", "multi-write-not-stopped-after-error", &format!("block {} of a `{}` was refused by the card (data response {status:#04x}), the call returned `{}`; the next call `{}` then violates the protocol: {}", which + 1, call.show(), trunc(&res, 60), c.show(), trunc(&viol, 200)), J::obj(vec![("case", J::s(tag.to_string())), ("kind", J::s(cfg.kind.token())), ("timing", J::s(format!("{:?}", cfg.timing))), ("status", J::i(status as i128)), ("block", J::i(which as i128 + 1))]));
             break;
         }
     }
